@@ -10,7 +10,10 @@ any exception other than Unidentifiable / the rejection ValueError is a violatio
 from __future__ import annotations
 
 import json
+import os
 import random
+import subprocess
+import sys
 
 from .. import common as C
 from .. import enc_expr as E
@@ -21,7 +24,7 @@ from . import c07 as C07
 from . import c18 as C18
 
 PROP = "C08"
-RULE = ("(7%: structured 'observational' inputs -- P(y | x) over factual variables, the static part of the two proved fragments; 8%: structured 'bichain' inputs -- 3-4 nodes on a chain of bidirected edges, one outcome, two conditions) random ADMGs with 2-5 nodes x pairs (outcome conjunction, non-empty condition conjunction) with disjoint keys drawn "
+RULE = ("(6%: structured 'samebase' inputs -- several conditions over ONE base variable in different worlds with equal / different values, both listing orders, or an outcome sharing its base variable with a condition; one batch case: >= 60 multi-condition inputs run unpatched in fresh interpreters under PYTHONHASHSEED 0,1,2 (thorough: 400 inputs, 8 seeds); 7%: structured 'observational' inputs -- P(y | x) over factual variables, the static part of the two proved fragments; 8%: structured 'bichain' inputs -- 3-4 nodes on a chain of bidirected edges, one outcome, two conditions) random ADMGs with 2-5 nodes x pairs (outcome conjunction, non-empty condition conjunction) with disjoint keys drawn "
         "from <=2 counterfactual worlds plus the factual world (shared/distinct subscripts, x / x' values, "
         "self-interventions); the examples of test_idc_star / Shpitser-Pearl / Tikka and all past witnesses first; a "
         "stream of impossible conditions (violating effectiveness). Every case is run under every order of the worlds and "
@@ -45,9 +48,20 @@ ASSUMPTIONS = [
     "'rejects an impossible condition': the oracle only demands a rejection when impossibility is certain (a conjunct "
     "V_S = v whose own subscript fixes V to the other value); a rejection of a possible condition is counted "
     "(tag rejected_possible) but is not a violation of this property's statement",
-    "idc_star's answer can depend on PYTHONHASHSEED (corpus/C08/hash_order_dependent.json: the keys taken from a Python set "
-    "in get_new_outcomes_and_conditions decide which condition is exchanged first); the model takes that order as the "
-    "parameter kordf, the harness drives the real code through both orders and judges every distinct answer",
+    "PYTHONHASHSEED (R-clause): until `fix:` b76144c idc_star's answer depended on the hash seed (corpus/C08/hash_order_dependent.json: "
+    "the keys taken from a Python set in get_new_outcomes_and_conditions decided which condition is exchanged first); the code now "
+    "sorts them by _variable_sort_key, the model is run with kordf = orderDistrict false (all theorems hold for every kordf), and "
+    "the check runs a batch of multi-condition inputs (the old witnesses first) UNPATCHED in fresh interpreters under several hash "
+    "seeds: differing answers are judged one by one, a wrong one is the never-listed kind 'order-dependent-verdict'; the other "
+    "set-valued iterations (worlds in cg.py, district nodes in id_star.py) are still driven through all their orders in-process",
+    "attribution to a listed finding needs TWO things: the broken step is identified on the input by exact evaluation (below) AND "
+    "the Lean model -- the correspondence-checked copy of the code the findings were written about -- returns the very same answer "
+    "on that input under the same iteration order (driver call per failing input); a wrong answer that differs from the model's "
+    "gets the never-listed key [differs-from-the-wrong-answer-of-the-modelled-code, ...]: a new defect is not hidden behind an old "
+    "finding that happens to fire on the same input",
+    "vocabulary: an estimand with a term that mixes variables of different worlds is a failure of kind 'vocabulary' whatever its "
+    "value (it is a counterfactual joint distribution, nothing has been identified); the unchanged code never returns one "
+    "(idcstar_vocab)",
     "termination of the model is by fuel (2(|outcomes|+|conditions|) + |V| + 4): the inner ID* calls terminate by theorem "
     "(C07 idstar_never_out_of_fuel); IDC*'s own line-4 recursion terminates by theorem (i) with the explicit bound |conditions| + 1 "
     "when no variable NAME occurs both among the outcomes and among the conditions (idcstar_own_recursion_terminates / "
@@ -73,7 +87,8 @@ ASSUMPTIONS = [
     "'normalisation:subscript', i.e. as a VIOLATION); these classes have ONE coarse finding key each, "
     "because the broken step is identified on every such input, not inferred from the input's shape; any other failure "
     "(including every crash) is keyed by (failure kind, graph + outcomes + conditions of the SHRUNK failing input up to "
-    "renaming). A new defect that only ever co-occurs with an earlier broken step on the same input would be masked",
+    "renaming). A new defect that only ever co-occurs with an earlier broken step on the same input AND leaves the answer of the "
+    "unchanged code untouched there would be masked (any change of the answer on such an input is caught by the comparison with the model)",
 ]
 EXHAUSTIVE = {"quick": False, "thorough": False}
 LEANCHECK_MODULES = ["Y0.Model.IdcStar", "Y0.Props.C08"]
@@ -237,10 +252,75 @@ def cases(rng: random.Random, tier: str):
             if C.enc(nv) not in {C.enc(v_) for v_, _ in conds + outs}:
                 conds[0] = [nv, val]
         out.append(c)
+    # R-clause (Python runtime): the answer must not depend on PYTHONHASHSEED.  One batch case: inputs with several conditions
+    # and a counterfactual world (where the re-association / the choice of the exchanged condition can depend on an order) are
+    # run in FRESH interpreters under several hash seeds, unpatched; see _run_hashseeds
+    batch = [c for c in out if not c.get("malformed") and len(c["conditions"]) >= 2 and K.n_worlds(joint(c)) >= 1]
+    batch = [c for c in out if "PYTHONHASHSEED" in str(c.get("note", ""))] + batch[:60 if tier == "quick" else 400]
+    out.append({"kind": "hashseeds", "g": {"nodes": [], "di": [], "bi": []}, "outcomes": [], "conditions": [],
+                "batch": [{k: c[k] for k in ("g", "outcomes", "conditions", "seed")} for c in batch],
+                "hashseeds": [0, 1, 2] if tier == "quick" else list(range(8)), "seed": 0})
     return out
 
 
 # ------------------------------------------------------------------------------------------ real code
+
+
+_CHILD = """
+import sys, json
+sys.path.insert(0, VERIF)
+from harness import common as C
+C.use_repo()
+from harness.props import c08
+out = []
+for c in BATCH:
+    try:
+        r, exc = c08._run_real(c, None)
+    except Exception as e:
+        r = ["harness", type(e).__name__]
+    out.append(r)
+print(json.dumps(out))
+"""
+
+
+def _run_hashseeds(case):
+    """the real idc_star, unpatched, on every input of the batch in a fresh interpreter per PYTHONHASHSEED.  An input whose
+    answers differ is judged answer by answer with the exact oracle: a wrong one is a failure of kind 'order-dependent-verdict'
+    (never listed since `fix:` b76144c: get_new_outcomes_and_conditions sorts the re-associated keys)."""
+    results = {}
+    for hs in case["hashseeds"]:
+        src = _CHILD.replace("VERIF", repr(str(C.VERIF))).replace("BATCH", "json.loads(%r)" % json.dumps(case["batch"]))
+        env = dict(os.environ)
+        env["PYTHONHASHSEED"] = str(hs)
+        env["Y0_REPO"] = str(C.REPO)
+        env["VERIF_LINECOV"] = "0"
+        p = subprocess.run([sys.executable, "-c", src], capture_output=True, text=True, env=env, timeout=1800)
+        if p.returncode != 0:
+            raise RuntimeError(p.stderr[-800:])
+        results[hs] = json.loads(p.stdout.strip().splitlines()[-1])
+    fail, key, dependent = None, None, 0
+    for i, c in enumerate(case["batch"]):
+        answers = []
+        for hs in case["hashseeds"]:
+            if results[hs][i] not in answers:
+                answers.append(results[hs][i])
+        if len(answers) < 2:
+            continue
+        dependent += 1
+        if fail is None and _in_domain(c):
+            for a in answers:
+                f1, k1 = _judge(c, a, None, 8, None)
+                if f1:
+                    fail = (f"idc_star's answer depends on PYTHONHASHSEED on {json.dumps(c)}: answers {json.dumps(answers)[:600]}; "
+                            f"one of them is wrong: {f1}")
+                    key = json.dumps(["order-dependent-verdict", [k1]])
+                    break
+    out = {"out": ["hashseeds"], "fail": fail, "nontrivial": True,
+           "tags": {"gen": "hashseeds", "hashseed_batch": len(case["batch"]), "hashseeds": len(case["hashseeds"]),
+                    "hashseed_dependent_inputs": dependent}}
+    if key:
+        out["finding_key"] = key
+    return out
 
 
 def joint(case):
@@ -822,6 +902,8 @@ def _shrink_budget(per_process=5):
 
 
 def run_python(case):
+    if case.get("kind") == "hashseeds":
+        return _run_hashseeds(case)
     r = _evaluate(case, all_verdicts=True)
     by_order = r["by_order"]
     frag = bool(r["in_domain"]) and in_fragment_c(case)
@@ -898,6 +980,8 @@ def run_python(case):
 
 
 def request(case):
+    if case.get("kind") == "hashseeds":
+        return None     # a clause about the Python runtime: no model side
     g = case["g"]
     gs = C.graph_sexp(g["nodes"], g["di"], g["bi"])
     return C.enc(["cf", "idc_star_checked", gs, case["outcomes"], case["conditions"], [list(s) for s in K.id_strategies(joint(case))]])
@@ -923,7 +1007,7 @@ def canon_model(case, rep):
 
 
 def shrink(case):
-    if case.get("_noshrink"):
+    if case.get("_noshrink") or case.get("kind") == "hashseeds":
         return
     r = _evaluate(case)
     if r["fail"] and r["kind"] not in COARSE:
@@ -951,8 +1035,9 @@ MANIFEST = {
              "ID* and adds the bound-range part of F11 and an exchange step that ignores the other conditions); the check decides it by correspondence with the real "
              "code plus exact evaluation of P(outcomes, conditions)/P(conditions) on sampled functional SCMs; every wrong answer is "
              "attributed to the first step of IDC*'s chain of claims that exact evaluation shows to be broken (reassociation, "
-             "exchange:conditions, exchange:separation, inherited from ID*, F11) and those steps are listed as open findings; three "
-             "small defects were fixed in idc_star.py (0cb6c69, 8a76512, 9f8a537) and the subscript part of F11 in dsl.py (a54a0f5)."),
+             "exchange:conditions, exchange:separation, inherited from ID*, F11) and those steps are listed as open findings -- a wrong answer is "
+             "excused by a listed finding only if the model returns the same wrong answer on that input; four "
+             "small defects were fixed in idc_star.py (0cb6c69, 8a76512, 9f8a537, b76144c: the answer no longer depends on PYTHONHASHSEED, checked in fresh interpreters under several hash seeds) and the subscript part of F11 in dsl.py (a54a0f5)."),
     "note": ("Trusted: Lean kernel + standard axioms; hand-written models (ID*, counterfactual graph, d-separation of the sep "
              "family, Expression.conditional) tied to the code by differential testing under all set-iteration orders; the "
              "reading convention of estimands; sampled models (8 per case, P(conditions) > 0)."),
